@@ -43,7 +43,7 @@ static void do_op(Cmd *c) {
         o_stat(st);
     } else if (is_op(c, "new_default")) {
         if (D[k]) { o("st=- busy"); o_sep(); o("-"); return; }
-        default_mode = 1; CC_Deque *d = NULL; st = cc_deque_new(&d); D[k] = st == CC_OK ? d : NULL; o_stat(st);
+        CC_Deque *d = NULL; st = cc_deque_new(&d); D[k] = st == CC_OK ? d : NULL; o_stat(st);
     } else if (is_op(c, "destroy")) {            /* end of history: release every live object */
         for (int i = 0; i < NSLOT; i++) if (D[i]) { cc_deque_destroy(D[i]); D[i] = NULL; }
         it_slot = zit_a = zit_b = -1; o("st=-");
